@@ -216,7 +216,7 @@ Section Registered.
   Proof.
     intros T anc Hc. destruct reg_facts as (Hca & Hfin & Hbl).
     assert (Hwf : reg_wf reg) by (eapply reg_wf_compiled; eauto).
-    destruct (finalize_ok ord reg fr Hord Hwf Hfin) as (Htp & HP & _ & Hlin).
+    destruct (finalize_ok ord reg fr Hord Hwf Hfin) as (Htp & HP & _ & _ & Hlin).
     assert (HinT : In T ts) by (eapply is_chain_in; eauto; now left).
     assert (HinC : In (compiled T) reg) by (now apply in_map).
     assert (Ha := chain_anc ts Hnd _ Hc). cbn in Ha.
@@ -242,7 +242,7 @@ Section Registered.
     intros T anc Hc. destruct (registered_chain T anc Hc) as (Hancl & _ & _).
     destruct reg_facts as (Hca & Hfin & Hbl).
     assert (Hwf : reg_wf reg) by (eapply reg_wf_compiled; eauto).
-    destruct (finalize_ok ord reg fr Hord Hwf Hfin) as (Htp & HP & _ & _).
+    destruct (finalize_ok ord reg fr Hord Hwf Hfin) as (Htp & HP & _ & _ & _).
     unfold ancl in Hancl. destruct (alookup (t_name T) (f_parents fr)) as [ps|] eqn:E.
     - assert (Hps : ps = rev (map t_name anc)) by (rewrite <- Hancl; now rewrite rev_involutive).
       destruct anc as [|p anc].
@@ -309,11 +309,167 @@ Qed.
 Lemma finalize_err1 : forall ord reg e, loop1 reg reg = Err e -> finalize ord reg = Err e.
 Proof. intros. unfold finalize. now rewrite H. Qed.
 
+(* ---- find_block_cycle only looks at a lineage map through lookups and its sorted keys *)
+
+Lemma insert_name_comm : forall x y s, insert_name x (insert_name y s) = insert_name y (insert_name x s).
+Proof.
+  intros x y s. induction s as [|a s IH]; cbn.
+  - destruct (N.leb_spec x y), (N.leb_spec y x); cbn; try reflexivity; try lia.
+    assert (x = y) by lia. now subst.
+  - destruct (N.leb_spec y a), (N.leb_spec x a); cbn;
+      repeat match goal with |- context [N.leb ?u ?v] => destruct (N.leb_spec u v); cbn end;
+      try reflexivity; try lia; try (assert (x = y) by lia; subst; reflexivity).
+    now rewrite IH.
+Qed.
+
+Lemma sort_names_perm : forall l l', Permutation l l' -> sort_names l = sort_names l'.
+Proof.
+  induction 1; cbn; auto.
+  - now rewrite IHPermutation.
+  - apply insert_name_comm.
+  - congruence.
+Qed.
+
+Definition lookup_eq (m m' : list (name * list code)) : Prop := forall b, alookup b m = alookup b m'.
+
+Lemma keys_sorted_eq : forall m m', NoDup (map fst m) -> NoDup (map fst m') -> lookup_eq m m' ->
+  sort_names (map fst m) = sort_names (map fst m').
+Proof.
+  intros m m' Hn Hn' He. apply sort_names_perm. apply NoDup_Permutation; auto.
+  intros k. split; intros Hin.
+  - destruct (alookup k m') eqn:E.
+    + apply alookup_in in E. apply (in_map fst) in E. exact E.
+    + exfalso. rewrite <- He in E. apply alookup_none_keys in E. contradiction.
+  - destruct (alookup k m) eqn:E.
+    + apply alookup_in in E. apply (in_map fst) in E. exact E.
+    + exfalso. rewrite He in E. apply alookup_none_keys in E. contradiction.
+Qed.
+
+Lemma next_nodes_ext : forall m m' c, lookup_eq m m' -> next_nodes m c = next_nodes m' c.
+Proof.
+  intros m m' c He. unfold next_nodes. rewrite (He (fst c)).
+  destruct (alookup (fst c) m'); auto. destruct (nth_error l (snd c)); auto.
+  f_equal. f_equal. f_equal. apply filter_ext. intros b. now rewrite (He b).
+Qed.
+
+Lemma bc_walk_ext : forall m m', lookup_eq m m' ->
+  forall f c st v, bc_walk f m c st v = bc_walk f m' c st v.
+Proof.
+  intros m m' He. induction f as [|f IH]; intros c st v; auto.
+  cbn [bc_walk]. rewrite (next_nodes_ext m m' c He).
+  destruct (next_nodes m' c) as [next|]; auto.
+  revert v. induction next as [|n next IHn]; intros v; auto.
+  destruct (existsb (bnode_eqb n) st); auto.
+  destruct (existsb (bnode_eqb n) v); auto.
+  rewrite IH. destruct (bc_walk f m' n (n :: st) v) as [[[found|] v']|]; auto.
+Qed.
+
+Lemma first_cycle_ext : forall m m', lookup_eq m m' ->
+  forall f starts, first_cycle f m starts = first_cycle f m' starts.
+Proof.
+  intros m m' He f. induction starts as [|s starts IH]; auto.
+  cbn [first_cycle]. rewrite (bc_walk_ext m m' He). rewrite IH. reflexivity.
+Qed.
+
+Lemma lin_len_ext : forall m m', lookup_eq m m' -> forall k, lin_len m k = lin_len m' k.
+Proof. intros m m' He k. unfold lin_len. now rewrite He. Qed.
+
+Lemma fbc_ext : forall m m', NoDup (map fst m) -> NoDup (map fst m') -> lookup_eq m m' ->
+  find_block_cycle m = find_block_cycle m'.
+Proof.
+  intros m m' Hn Hn' He. unfold find_block_cycle.
+  rewrite (keys_sorted_eq m m' Hn Hn' He).
+  rewrite (map_ext _ _ (lin_len_ext m m' He)).
+  rewrite (first_cycle_ext m m' He).
+  f_equal. apply flat_map_ext. intros k. now rewrite (lin_len_ext m m' He).
+Qed.
+
+(* tpl_blocks after the inherit pass, whatever the orders were *)
+Definition tb_full (reg : list ctemplate) (P : list (name * list name))
+           (tb : list (name * list (name * list code))) : Prop :=
+  maps_nodup tb /\
+  forall t, In t reg ->
+    exists m, alookup (c_name t) tb = Some m /\
+      forall b, alookup b m = nonempty (clin reg (c_name t :: ancl P (c_name t)) b).
+
+Lemma cycle_pass_ext : forall reg P tb tb', tb_full reg P tb -> tb_full reg P tb' ->
+  forall todo, incl todo reg -> cycle_pass todo tb = cycle_pass todo tb'.
+Proof.
+  intros reg P tb tb' [Hn Hf] [Hn' Hf']. induction todo as [|t todo IH]; intros Hincl; auto.
+  cbn [cycle_pass].
+  destruct (Hf t (Hincl t (or_introl eq_refl))) as (m & Hm & Hl).
+  destruct (Hf' t (Hincl t (or_introl eq_refl))) as (m' & Hm' & Hl').
+  rewrite Hm, Hm'.
+  rewrite (fbc_ext m m'); [|eapply Hn; eauto|eapply Hn'; eauto|intros b; now rewrite Hl, Hl'].
+  rewrite IH; auto. intros x Hx. apply Hincl. now right.
+Qed.
+
+Lemma bc_walk_S : forall f lin current stack visited,
+  bc_walk (S f) lin current stack visited =
+  match next_nodes lin current with
+  | Err e => Err e
+  | Ok next =>
+      (fix loop (next : list bnode) (visited : list bnode) {struct next}
+         : rres (option name * list bnode) :=
+         match next with
+         | [] => Ok (None, visited)
+         | node :: rest =>
+             if existsb (bnode_eqb node) stack then Ok (Some (fst node), visited)
+             else if existsb (bnode_eqb node) visited then loop rest visited
+             else
+               match bc_walk f lin node (node :: stack) visited with
+               | Err e => Err e
+               | Ok (Some found, v) => Ok (Some found, v)
+               | Ok (None, v) => loop rest (node :: v)
+               end
+         end) next visited
+  end.
+Proof. reflexivity. Qed.
+
+Lemma cycle_pass_errors : forall reg tb e, cycle_pass reg tb = Err e -> e = EPanic \/ e = EOutOfFuel.
+Proof.
+  assert (Hw : forall f m c st v e, bc_walk f m c st v = Err e -> e = EPanic \/ e = EOutOfFuel).
+  { induction f as [|f IH]; intros m c st v e H.
+    - inversion H. auto.
+    - rewrite bc_walk_S in H. unfold next_nodes in H. destruct (alookup (fst c) m); [|inversion H; auto].
+      destruct (nth_error l (snd c)); [|inversion H; auto].
+      match type of H with (fix loop (n : list bnode) (vv : list bnode) {struct n} := _) ?nx v = _ =>
+        set (nxt := nx) in H; clearbody nxt end.
+      revert v H. induction nxt as [|n nxt IHn]; intros v H.
+      + discriminate.
+      + cbn -[bc_walk] in H. destruct (existsb (bnode_eqb n) st); [discriminate|].
+        destruct (existsb (bnode_eqb n) v); [eauto|].
+        case_eq (bc_walk f m n (@cons bnode n st) v); [intros [[found|] v'] E|intros e' E]; rewrite E in H.
+        * discriminate.
+        * eauto.
+        * inversion H; subst. eapply IH; eauto. }
+  assert (Hf : forall f m starts e, first_cycle f m starts = Err e -> e = EPanic \/ e = EOutOfFuel).
+  { intros f m. induction starts as [|s starts IH]; intros e H; cbn [first_cycle] in H; [discriminate|].
+    case_eq (bc_walk f m s [s] []); [intros [[found|] v'] E|intros e' E]; rewrite E in H.
+    - discriminate.
+    - eauto.
+    - inversion H; subst. eapply Hw; eauto. }
+  induction reg as [|t reg IH]; intros tb e H; cbn [cycle_pass] in H; [discriminate|].
+  destruct (alookup (c_name t) tb); [|inversion H; auto].
+  destruct (find_block_cycle l) as [c|e'] eqn:E; cbn [rbind] in H.
+  - destruct (cycle_pass reg tb) as [r|e''] eqn:E2; cbn [rbind] in H; [discriminate|].
+    inversion H; subst. eapply IH; eauto.
+  - inversion H; subst. unfold find_block_cycle in E. eapply Hf; eauto.
+Qed.
+
+(* what finalize does once the parents are known *)
 Lemma finalize_after_loop1 : forall ord reg P,
   orders_ok ord -> reg_wf reg -> loop1 reg reg = Ok P ->
   match flat_map (orphans_of reg P) reg with
-  | [] => exists fr, finalize ord reg = Ok fr
   | _ :: _ => finalize ord reg = Err EOrphanBlock
+  | [] =>
+      exists tb, tb_full reg P tb /\
+        finalize ord reg =
+        (cyc <- cycle_pass reg tb ;;
+         match cyc with
+         | [] => Ok {| f_tpls := reg; f_parents := P; f_lineage := tb |}
+         | _ :: _ => Err EBlockCycle
+         end)
   end.
 Proof.
   intros ord reg P Hord [Hnd Hbl] E1. unfold finalize. rewrite E1. cbn [rbind].
@@ -342,7 +498,16 @@ Proof.
   destruct (flat_map (orphans_of reg P) reg) eqn:E.
   - assert (Hnil : orph = []).
     { rewrite Ho. eapply orphans_perm; [apply Permutation_sym; apply Ho2|exact E]. }
-    rewrite Hnil. eexists. reflexivity.
+    rewrite Hnil. exists tb'. split; [|reflexivity].
+    destruct Hinv' as (_ & Hmn & Hall). split; auto.
+    intros t Hin. destruct (Hall t Hin) as (m & Hm & Hl). exists m. split; auto.
+    intros b. rewrite Hl.
+    assert (Hd : existsb (N.eqb (c_name t)) (map fst (o_inherit ord P) ++ []) = true).
+    { apply existsb_exists. exists (c_name t). split; [|apply N.eqb_refl].
+      rewrite app_nil_r. eapply Permutation_in; [apply Permutation_map; apply Permutation_sym; apply Hoi|].
+      destruct (HPall t Hin) as (Hs & _). destruct (alookup (c_name t) P) eqn:E'; [|congruence].
+      apply alookup_in in E'. apply (in_map fst) in E'. exact E'. }
+    now rewrite Hd.
   - destruct orph; auto. exfalso.
     assert (flat_map (orphans_of reg P) reg = []).
     { eapply orphans_perm; [apply Ho2|]. now rewrite <- Ho. }
@@ -358,7 +523,9 @@ Proof.
   - assert (A := finalize_after_loop1 ord reg P H Hwf E1).
     assert (B := finalize_after_loop1 ord' reg P H' Hwf E1).
     destruct (flat_map (orphans_of reg P) reg).
-    + destruct A as [fr ->]. destruct B as [fr' ->]. reflexivity.
+    + destruct A as (tb & Hf & ->). destruct B as (tb' & Hf' & ->).
+      rewrite (cycle_pass_ext reg P tb tb' Hf Hf' reg (incl_refl _)).
+      destruct (cycle_pass reg tb') as [[|c cyc]|e]; reflexivity.
     + now rewrite A, B.
   - now rewrite (finalize_err1 ord reg e E1), (finalize_err1 ord' reg e E1).
 Qed.
@@ -510,7 +677,7 @@ Section Accept.
   Proof.
     intros fr Hreg. destruct (reg_facts ord ts fr Hreg) as (Hca & Hfin & Hbl).
     assert (Hwf : reg_wf (map compiled ts)) by (eapply reg_wf_compiled; eauto).
-    destruct (finalize_ok ord _ fr Hord Hwf Hfin) as (Htp & HP & Horph & _).
+    destruct (finalize_ok ord _ fr Hord Hwf Hfin) as (Htp & HP & Horph & _ & _).
     induction ch as [|T anc IH]; intros Hc; [reflexivity|].
     cbn [spec_accepts]. apply andb_true_iff. split.
     - assert (HinT : In T ts) by (eapply is_chain_in; eauto; now left).
@@ -549,14 +716,23 @@ Section Accept.
     split; auto. eapply an_det; eauto. apply (chain_anc ts Hnd _ Hc).
   Qed.
 
-  (* every template's chain passes the rule (nested new blocks are not looked at) => accepted *)
+  (* every template's chain passes the rule (nested new blocks are not looked at) => not
+     rejected by the orphan rule: what is left is the block-cycle check on the lineage *)
   Theorem chains_ok_accepted :
-    (forall ch, is_chain ts ch -> spec_accepts ch = true) -> exists fr, register ord ts = Ok fr.
+    (forall ch, is_chain ts ch -> spec_accepts ch = true) ->
+    exists P tb, tb_full (map compiled ts) P tb /\
+      register ord ts =
+      (cyc <- cycle_pass (map compiled ts) tb ;;
+       match cyc with
+       | [] => Ok {| f_tpls := map compiled ts; f_parents := P; f_lineage := tb |}
+       | _ :: _ => Err EBlockCycle
+       end).
   Proof.
     intros Hacc. unfold register. rewrite compile_all_complete by auto. cbn [rbind].
     destruct loop1_chains as [P HP].
     assert (A := finalize_after_loop1 ord _ P Hord wf_chains HP).
-    destruct (flat_map (orphans_of (map compiled ts) P) (map compiled ts)) eqn:E; auto.
+    destruct (flat_map (orphans_of (map compiled ts) P) (map compiled ts)) eqn:E.
+    { destruct A as (tb & Hf & Hfin). exists P, tb. auto. }
     exfalso.
     assert (Hin : In n (flat_map (orphans_of (map compiled ts) P) (map compiled ts))) by (rewrite E; now left).
     apply in_flat_map in Hin. destruct Hin as (c & Hc & Hn).
@@ -567,6 +743,17 @@ Section Accept.
     apply (orphans_spec ts P T anc Hnd Hsyn Hch Hs Hancl) in Hok. rewrite Hok in Hn. contradiction.
   Qed.
 
+  Corollary chains_ok_only_cycle_rejection :
+    (forall ch, is_chain ts ch -> spec_accepts ch = true) ->
+    forall e, register ord ts = Err e -> e = EBlockCycle \/ e = EPanic \/ e = EOutOfFuel.
+  Proof.
+    intros Hacc e He. destruct (chains_ok_accepted Hacc) as (P & tb & _ & Hr). rewrite Hr in He.
+    destruct (cycle_pass (map compiled ts) tb) as [[|c cyc]|e'] eqn:E; cbn [rbind] in He.
+    - discriminate.
+    - inversion He. auto.
+    - inversion He; subst. right. eapply cycle_pass_errors; eauto.
+  Qed.
+
   (* a chain that breaks the rule => rejected with the orphan-block error *)
   Theorem chain_bad_rejected : forall ch, is_chain ts ch -> spec_accepts ch = false ->
     register ord ts = Err EOrphanBlock.
@@ -575,7 +762,7 @@ Section Accept.
     destruct loop1_chains as [P HP].
     assert (A := finalize_after_loop1 ord _ P Hord wf_chains HP).
     destruct (flat_map (orphans_of (map compiled ts) P) (map compiled ts)) eqn:E; auto.
-    exfalso. revert Hch Hbad. induction ch as [|T anc IH]; intros Hch Hbad; [discriminate|].
+    exfalso. clear A. revert Hch Hbad. induction ch as [|T anc IH]; intros Hch Hbad; [discriminate|].
     cbn [spec_accepts] in Hbad. apply andb_false_iff in Hbad. destruct Hbad as [Hb|Hb].
     - destruct (parents_chain P HP T anc Hch) as (Hs & Hancl).
       assert (HinT : In T ts) by (eapply is_chain_in; eauto; now left).
@@ -604,8 +791,8 @@ Proof.
     destruct (reg_facts ord ts fr H) as (Hca & Hfin & Hbl).
     destruct (reg_facts ord' ts fr' H') as (_ & Hfin' & _).
     assert (Hwf : reg_wf (map compiled ts)) by (eapply reg_wf_compiled; eauto).
-    destruct (finalize_ok ord _ fr Ho Hwf Hfin) as (Htp & HP & _ & Hlin).
-    destruct (finalize_ok ord' _ fr' Ho' Hwf Hfin') as (Htp' & HP' & _ & Hlin').
+    destruct (finalize_ok ord _ fr Ho Hwf Hfin) as (Htp & HP & _ & _ & Hlin).
+    destruct (finalize_ok ord' _ fr' Ho' Hwf Hfin') as (Htp' & HP' & _ & _ & Hlin').
     split; [congruence|]. intros t Hin.
     assert (HinC : In (compiled t) (map compiled ts)) by now apply in_map.
     destruct HP as (_ & HPall & _). destruct HP' as (_ & HPall' & _).
